@@ -1,6 +1,7 @@
 SPECIFICATION Spec
 CONSTANT MaxV = 4
 CONSTANT M0s = {2, 3, 4, 5}
+CONSTANT MaxUses = 2
 CONSTANT PinnedDedup = FALSE
 INVARIANT C09_Cliques
 INVARIANT C09_Disjoint
